@@ -42,6 +42,21 @@ claimed.update({
  "C04": ("E", "bounded exhaustive enumeration of PDF417 data x security levels (sub-mode class words, all byte pairs, macro words over compaction segments, length grid), decoded by an independent strict ISO 15438 reader",
          "Each symbol is checked for start/stop, cluster discipline, left/right row indicators, RS validity over GF(929) with directly computed syndromes, and decoded through text/byte/numeric compaction with all sub-modes; decoded bytes must equal the input. Macro words drive the compaction automaton through the transitions (shifted byte between text, numeric latches, pads in each sub-mode) where state can desynchronise.", E_NOTE + " PDF417 bar-space table: structural validation + pinned digest (trusted base).", "4.C04"),
 })
+
+claimed.update({
+ "C09": ("B", "breadth-first exploration of chains of Scale/ScaleWithFill operations over full and relative size windows, every pixel compared with an integer arithmetic reference model",
+         "From one smallest symbol of every encoder family under two colour schemes, every (width,height) in 1..3x+2 and chains of up to 2 (thorough 3) further scalings are executed on the real code and on an integer-only reference model; refusal/acceptance must agree at every step, and bounds, every pixel, Content, Metadata and CheckSum at the end. This covers every residue of the integer factor and of the centring margin, both sides of the error boundary, and already-scaled sources.", "Trusted: the arithmetic model in harness/checks/c09.go (accepts either rounding of an odd margin). Sources are the smallest symbols: Scale only looks at bounds/dimensionality/accessors.", "4.C09"),
+ "C10": ("E", "bounded exhaustive enumeration of every encoder entry point over alphabets, full parameter domains and capacity edges under a recover wrapper + watchdog, against a three-valued representability oracle",
+         "Every call explored by the round-trip enumerations, plus boundary-alphabet words, all 256 PDF417 level bytes, Aztec layers -40..40 x percentages 0..100+, and beyond-capacity inputs, must return, with exactly one of barcode/error, accepting what is representable and refusing what is not (an explicit unspecified band never alarms).", E_NOTE + " Non-termination is decided by a 180 s per-call watchdog.", "4.C10"),
+ "C11": ("E", "exhaustive families x WithColor variants x 12 colour schemes x representative contents of every symbol size; every pixel compared by identity with the scheme's two colours and with the plain symbol's module matrix",
+         "The plain symbol is validated by the family's reference decoder (prescribed size, Metadata, Content, black on white); then every colour scheme is rendered and each pixel must be identical to exactly the scheme's foreground or background, give the same module matrix, and ColorModel/ColorScheme/Metadata/Content must report correctly.", E_NOTE, "4.C11"),
+ "C12": ("E", "the QR/PDF417/Aztec/DataMatrix enumerations with the decoders' structure records as oracle (declared level, check-codeword counts, zero syndromes, Aztec check bits vs percentage), plus the full Aztec percentage grid",
+         "On every decoded symbol the declared level equals the requested one and the carried check codewords are exactly those of the independent ISO tables (verified by zero syndromes after independent de-interleaving); for Aztec, check bits >= pct% of decoded data bits for every percentage 0..100.", E_NOTE, "4.C12"),
+ "C13": ("E", "capacity-boundary sweeps against reference capacity models; for Aztec exhaustive refusal check of all smaller explicit layer requests per point",
+         "QR version <= reference minimum at cap-1/cap/cap+1 (thorough: every length) of every version x level x mode incl. Auto; DataMatrix size == smallest for the reference ASCII encodation length; every smaller explicit Aztec request is refused; PDF417 padding < one row.", E_NOTE, "4.C13"),
+ "C15": ("B", "explicit-state BFS over encode-operation sequences from cold package state (state = both generator caches via hook, exact key, snapshot/restore successors) with fresh-OS-process observations as oracle; exhaustive post-hoc mutation of every []byte argument",
+         "Every operation of a 45-operation alphabet is observed in every reachable cache state (fixpoint) and in all raw sequences up to length 2 (thorough 3) and must equal what a freshly started process returns for the same call; caches must equal reference generators; map-iteration independence is decided structurally; every byte of every slice argument is overwritten after the call and the barcode must not change.", "Trusted: sha256 observation digest; hooks VerifReset/VerifCacheState/VerifRestore; operation alphabet covers every distinct generator degree QR/DataMatrix can request.", "4.C15"),
+})
 pending_reason = "check not built yet in this round (planned, see DESIGN.md section 4); not claimed until its explorer exists and passes on the unchanged tree"
 
 checks = []
